@@ -62,6 +62,10 @@ func main() {
 		os.Exit(rc)
 	case "dump":
 		os.Exit(cmdDump(os.Args[2:]))
+	case "selftest":
+		os.Exit(cmdSelftest(os.Args[2:]))
+	case "replay":
+		os.Exit(cmdReplay(os.Args[2:]))
 	default:
 		fmt.Println("unknown command")
 		os.Exit(2)
@@ -93,7 +97,11 @@ func cmdCheck(args []string) int {
 	only := fs.String("only", "", "only units whose name contains this")
 	keep := fs.Bool("keep", false, "keep SMT files")
 	verbose := fs.Bool("v", false, "verbose")
+	outRoot := fs.String("out", "", "write evidence/ and replays/ under this directory instead of -verif (self-tests, replays)")
 	fs.Parse(args)
+	if *outRoot == "" {
+		*outRoot = *verif
+	}
 	t0 := time.Now()
 	seed := 0
 	if s := os.Getenv("VERIF_SEED"); s != "" {
@@ -285,7 +293,7 @@ func cmdCheck(args []string) int {
 	queries := 0
 	var samples []map[string]interface{}
 	var failedNames []string
-	replayDir := filepath.Join(*verif, "replays", cfg.ID)
+	replayDir := filepath.Join(*outRoot, "replays", cfg.ID)
 	os.RemoveAll(replayDir)
 	for _, r := range results {
 		if *verbose {
@@ -356,9 +364,9 @@ func cmdCheck(args []string) int {
 		"wall_s":      round3(wall),
 		"violations":  violations,
 	}
-	os.MkdirAll(filepath.Join(*verif, "evidence"), 0o755)
+	os.MkdirAll(filepath.Join(*outRoot, "evidence"), 0o755)
 	eb, _ := json.MarshalIndent(ev, "", " ")
-	os.WriteFile(filepath.Join(*verif, "evidence", cfg.ID+".json"), eb, 0o644)
+	os.WriteFile(filepath.Join(*outRoot, "evidence", cfg.ID+".json"), eb, 0o644)
 	fmt.Printf("%s %s: %d named obligations, %d discharged, %d known findings, %d violations, %d SMT queries, %.1fs\n", cfg.ID, *tier, total, discharged, knownHits, violations, queries, wall)
 	if violations > 0 {
 		return 1
